@@ -451,6 +451,23 @@ impl Run {
 
 /// Greedy shrinker for enumerated/fuzzed character sequences: delete characters, then replace
 /// by 'a', as long as `fails` stays true.
+/// run `f` when the calling thread ends, from the destructor of a thread-local value (a caller may use the library from such a place)
+pub fn at_thread_exit(f: Box<dyn FnOnce()>) {
+    struct ExitHooks(std::cell::RefCell<Vec<Box<dyn FnOnce()>>>);
+    impl Drop for ExitHooks {
+        fn drop(&mut self) {
+            let hooks: Vec<Box<dyn FnOnce()>> = self.0.borrow_mut().drain(..).collect();
+            for f in hooks {
+                f();
+            }
+        }
+    }
+    thread_local! {
+        static EXIT_HOOKS: ExitHooks = ExitHooks(std::cell::RefCell::new(Vec::new()));
+    }
+    EXIT_HOOKS.with(|h| h.0.borrow_mut().push(f));
+}
+
 pub fn shrink_chars(mut v: Vec<char>, fails: &dyn Fn(&[char]) -> bool) -> Vec<char> {
     // best effort under a work budget (characters re-evaluated) and a 60 s deadline: the budget only bounds how small the reported
     // counterexample gets, never whether a violation is reported
